@@ -258,6 +258,8 @@ def main(argv=None):
                     min(16, os.cpu_count() or 1))
     ap.add_argument('--no-evidence', action='store_true')
     ap.add_argument('--max-units', type=int, default=0)
+    ap.add_argument('--opt-pass', action='store_true',
+                    help='internal: run the OPT_UNITS under python -O')
     args = ap.parse_args(argv)
     pid = args.pid.upper()
 
@@ -286,6 +288,8 @@ def main(argv=None):
 
     plan = prop.plan(args.tier)
     units = list(plan['units'])
+    if args.opt_pass:
+        units = list(prop.OPT_UNITS(args.tier))
     if args.max_units:
         units = units[:args.max_units]
     n = len(units)
